@@ -344,3 +344,30 @@ theorem file_live_step {s : FileStore} {r : Ref} {op : Op} (h : LInv s r) (hc : 
   | crash => exact absurd rfl hno.2
 
 end DEngine.LogStore
+
+namespace DEngine.LogStore
+
+/-! ## File store: the purge boundary follows the reference for EVERY op sequence (no precondition) -/
+
+theorem appendAll_boundary (es : List Ent) : ∀ (s : FileStore), (es.foldl FileStore.append s).boundary = s.boundary := by
+  induction es with
+  | nil => intro s; rfl
+  | cons e r ih => intro s; simp only [List.foldl_cons, ih]; rfl
+
+theorem file_boundary_step (s : FileStore) (r : Ref) (op : Op) (h : s.boundary = r.boundary) :
+    (s.step op).boundary = (r.step op).boundary := by
+  cases op with
+  | persist es =>
+    simp only [FileStore.step, Ref.step]
+    split
+    · exact h
+    · simp [appendAll_boundary, h]
+  | truncate f => simpa [FileStore.step, FileStore.cut, Ref.step] using h
+  | replace f es => simp [FileStore.step, Ref.step, appendAll_boundary, FileStore.cut, h]
+  | purge i t => simp [FileStore.step, Ref.step]
+  | reset => simpa [FileStore.step, Ref.step] using h
+  | flush => simpa [FileStore.step, Ref.step] using h
+  | reopen => simpa [FileStore.step, Ref.step] using h
+  | crash => simpa [FileStore.step, Ref.step] using h
+
+end DEngine.LogStore
